@@ -54,6 +54,11 @@ func refactorSpecials(r *Rng) []refactorSpecial {
 	add("flip-with-loops-in-both-arms",
 		fmt.Sprintf("func Arms(a, b int, xs []int, s string) int {\n\tt := 0\n\tif a >= b {\n\t\tfor i := len(xs) - 1; i >= 0; i-- {\n\t\t\tt += xs[i] * %d\n\t\t}\n\t} else {\n\t\tfor j := len(s); j < b; j += 2 {\n\t\t\tt ^= j\n\t\t}\n\t}\n\treturn t\n}\n", k2),
 		fmt.Sprintf("func Arms(a, b int, xs []int, s string) int {\n\tt := 0\n\tif a < b {\n\t\tfor j := len(s); j < b; j += 2 {\n\t\t\tt ^= j\n\t\t}\n\t} else {\n\t\tfor i := len(xs) - 1; i >= 0; i-- {\n\t\t\tt += xs[i] * %d\n\t\t}\n\t}\n\treturn t\n}\n", k2), nil)
+	// opposite test with exchanged branches inside a loop whose two arms call the SAME pure builtin on the
+	// same invariant value, with another hoistable call between them in canonical order
+	add("flip-with-repeated-len-in-loop-arms",
+		fmt.Sprintf("func Arms2(s, t []int, n int) int {\n\tacc := 0\n\tfor i := 0; i < n; i++ {\n\t\tif i >= %d {\n\t\t\tacc += len(s)\n\t\t} else {\n\t\t\tacc += len(s) - len(t)\n\t\t}\n\t}\n\treturn acc\n}\n\nfunc Arms3(s, t string, n int) int {\n\tacc := 0\n\tfor i := 0; i < n; i++ {\n\t\tif i > %d {\n\t\t\tacc ^= len(t) + len(s)\n\t\t} else {\n\t\t\tacc -= len(s)\n\t\t}\n\t}\n\treturn acc\n}\n", k2, k2),
+		fmt.Sprintf("func Arms2(s, t []int, n int) int {\n\tacc := 0\n\tfor i := 0; i < n; i++ {\n\t\tif i < %d {\n\t\t\tacc += len(s) - len(t)\n\t\t} else {\n\t\t\tacc += len(s)\n\t\t}\n\t}\n\treturn acc\n}\n\nfunc Arms3(s, t string, n int) int {\n\tacc := 0\n\tfor i := 0; i < n; i++ {\n\t\tif i <= %d {\n\t\t\tacc -= len(s)\n\t\t} else {\n\t\t\tacc ^= len(t) + len(s)\n\t\t}\n\t}\n\treturn acc\n}\n", k2, k2), nil)
 	// labels, loop variables and the function itself renamed
 	add("rename-labels",
 		fmt.Sprintf("func Grid(n, m int) int {\n\tt := 0\nouter:\n\tfor i := 0; i < n; i++ {\n\t\tfor j := 0; j < m; j++ {\n\t\t\tif i*j > %d {\n\t\t\t\tcontinue outer\n\t\t\t}\n\t\t\tif i+j > %d {\n\t\t\t\tbreak outer\n\t\t\t}\n\t\t\tt += i ^ j\n\t\t}\n\t}\n\treturn t\n}\n", k, k*3),
